@@ -589,3 +589,183 @@ Proof.
   destruct (sat c2 x) as [b2|e]; cbn [bind] in HP; [|discriminate].
   injection HP as ->. rewrite Hb. destruct b; cbn; split; congruence.
 Qed.
+
+(* -------------------------------------------- handle_ifs and select_stage *)
+Lemma handle_ifs_select args op coords : handle_ifs args op = Ok (inr coords) ->
+  exists prs, shape_stage args op = Ok (inr prs) /\ select_stage prs = Ok coords.
+Proof.
+  unfold handle_ifs. destruct (shape_stage args op) as [[e|prs]|e]; cbn [bind]; try discriminate.
+  destruct (select_stage prs) as [l|e] eqn:E; cbn [bind]; [|discriminate].
+  intros H. injection H as <-. eauto.
+Qed.
+
+Lemma map_fst_combine {A B} (a : list A) (b : list B) :
+  length a = length b -> map fst (combine a b) = a.
+Proof.
+  revert b. induction a as [|x a IH]; destruct b as [|y b]; cbn; intros H; try discriminate; [reflexivity|].
+  f_equal. apply IH. congruence.
+Qed.
+Lemma map_snd_combine {A B} (a : list A) (b : list B) :
+  length a = length b -> map snd (combine a b) = b.
+Proof.
+  revert b. induction a as [|x a IH]; destruct b as [|y b]; cbn; intros H; try discriminate; [reflexivity|].
+  f_equal. apply IH. congruence.
+Qed.
+
+(* what shape_stage hands on: one (rows, criterion) pair per argument pair,
+   in order; the rows are those of the (wrapped) range argument *)
+Definition range_rows (p : pyval * pyval) (rows : list (list pyval)) : Prop :=
+  exists r, wrap (fst p) = Ok r /\ as_rows r = Ok rows.
+
+Lemma shape_stage_pairs args op prs : shape_stage args op = Ok (inr prs) ->
+  prs <> [] /\ exists raw, pair_up args = Some raw /\ map snd prs = map snd raw
+    /\ Forall2 range_rows raw (map fst prs).
+Proof.
+  unfold shape_stage. destruct (pair_up args) as [[|p raw]|] eqn:EP; try discriminate.
+  destruct (mapM (fun p0 => wrap (fst p0)) (p :: raw)) as [rngs|e] eqn:E1; cbn [bind]; [|discriminate].
+  destruct (mapM as_rows rngs) as [rows|e] eqn:E2; cbn [bind]; [|discriminate].
+  destruct (mapM size_of rows) as [sizes|e] eqn:E3; cbn [bind]; [|discriminate].
+  destruct sizes as [|s0 rest]; [discriminate|].
+  destruct (negb (forallb (size_eqb s0) rest)); [discriminate|].
+  destruct (match op with None => Ok true | Some opr => _ end) as [ok|e]; cbn [bind]; [|discriminate].
+  destruct (negb ok); [discriminate|]. intros H. injection H as <-.
+  pose proof (mapM_length _ _ _ E1) as L1. pose proof (mapM_length _ _ _ E2) as L2.
+  assert (Hlen : length rows = length (map snd (p :: raw))).
+  { rewrite map_length. congruence. }
+  change (snd p :: map snd raw) with (map snd (p :: raw)).
+  rewrite (map_fst_combine _ _ Hlen), (map_snd_combine _ _ Hlen). split.
+  - destruct rows; [cbn in Hlen; discriminate|]. cbn. discriminate.
+  - exists (p :: raw). split; [reflexivity|]. split; [reflexivity|].
+    apply mapM_Forall2 in E1. apply mapM_Forall2 in E2. clear - E1 E2.
+    revert rows E2. induction E1 as [|q r raw' rngs' Hq _ IH]; intros rows E2.
+    + inversion E2. constructor.
+    + inversion E2 as [|? rw ? rows' Hr Hrest]; subst. constructor; [|apply IH; exact Hrest].
+      exists r. auto.
+Qed.
+
+(* C15_select on handle_ifs itself *)
+Theorem handle_ifs_sound args op coords : handle_ifs args op = Ok (inr coords) ->
+  exists prs, shape_stage args op = Ok (inr prs) /\ prs <> []
+    /\ NoDup coords
+    /\ forall i, In i coords <-> (forall rows crit, In (rows, crit) prs -> cell_sat i rows crit).
+Proof.
+  intros H. destruct (handle_ifs_select args op coords H) as (prs & Hs & Hsel).
+  destruct (shape_stage_pairs args op prs Hs) as (Hne & _).
+  destruct (select_sound prs coords Hne Hsel) as (Hnd & Hin). exists prs. auto.
+Qed.
+
+(* the aggregated range only adds a shape check *)
+Lemma handle_ifs_none args o coords :
+  handle_ifs args (Some o) = Ok (inr coords) -> handle_ifs args None = Ok (inr coords).
+Proof.
+  unfold handle_ifs, shape_stage. destruct (pair_up args) as [[|p raw]|]; try discriminate.
+  destruct (mapM (fun p0 => wrap (fst p0)) (p :: raw)) as [rngs|e]; cbn [bind]; [|discriminate].
+  destruct (mapM as_rows rngs) as [rows|e]; cbn [bind]; [|discriminate].
+  destruct (mapM size_of rows) as [sizes|e]; cbn [bind]; [|discriminate].
+  destruct sizes as [|s0 rest]; [discriminate|].
+  destruct (negb (forallb (size_eqb s0) rest)); [discriminate|].
+  destruct (wrap o) as [o1|e]; cbn [bind]; [|discriminate].
+  destruct (as_rows o1) as [orows|e]; cbn [bind]; [|discriminate].
+  destruct (size_of orows) as [so|e]; cbn [bind]; [|discriminate].
+  destruct (negb (size_eqb so s0)); cbn [bind negb]; [discriminate|]. auto.
+Qed.
+
+(* ------------------------------------------------- one criterion: IFS = IF *)
+Lemma wrap_list_like rng r : wrap rng = Ok r -> list_like r = Ok true.
+Proof.
+  unfold wrap, list_like, excelutil.f_list_like.
+  destruct rng; py_run; intros H; injection H as <-; py_run; reflexivity.
+Qed.
+
+Lemma find_cells_NoDup c rows l : find_cells c (enum_rows 0 rows) = Ok l -> NoDup l.
+Proof. intros H. apply find_cells_spec in H; [tauto|apply enum_rows_NoDup]. Qed.
+
+Theorem countifs_countif rng crit r rows : wrap rng = Ok r -> as_rows r = Ok rows -> rows <> [] ->
+  countifs [rng; crit] = countif rng crit.
+Proof.
+  intros Hw Hr Hne. unfold countifs, countif, handle_ifs, shape_stage, find_corresponding_index.
+  cbn [pair_up mapM fst snd]. rewrite Hw. cbn [bind mapM]. rewrite Hr. cbn [bind mapM].
+  rewrite (wrap_list_like rng r Hw).
+  destruct rows as [|r0 rows']; [congruence|]. cbn [size_of bind mapM forallb negb combine map snd].
+  unfold select_stage. cbn [mapM fst snd bind length]. unfold scan.
+  destruct (parse_criteria crit) as [c|e]; cbn [bind negb]; [|reflexivity].
+  destruct (find_cells c (enum_rows 0 (r0 :: rows'))) as [l|e] eqn:E; cbn [bind concat]; [|reflexivity].
+  rewrite app_nil_r, (select1_nodup l (find_cells_NoDup c _ l E)). reflexivity.
+Qed.
+
+Lemma sumif_sumifs rng crit sr : sr <> VNone -> sumif rng crit sr = sumifs sr [rng; crit].
+Proof. intros H. unfold sumif. destruct sr; congruence. Qed.
+Lemma sumif_default rng crit : sumif rng crit VNone = sumifs rng [rng; crit].
+Proof. reflexivity. Qed.
+Lemma averageif_averageifs rng crit ar : ar <> VNone ->
+  averageif rng crit ar = averageifs ar [rng; crit].
+Proof. intros H. unfold averageif. destruct ar; congruence. Qed.
+Lemma averageif_default rng crit : averageif rng crit VNone = averageifs rng [rng; crit].
+Proof. reflexivity. Qed.
+
+(* ------------------------------------------ the consumers aggregate coords *)
+Lemma countifs_spec args coords : handle_ifs args None = Ok (inr coords) ->
+  countifs args = Ok (VInt (zlen coords)).
+Proof. intros H. unfold countifs. rewrite H. reflexivity. Qed.
+
+Lemma selected_data_spec ar args sr coords cells :
+  wrap ar = Ok sr -> handle_ifs args (Some sr) = Ok (inr coords) ->
+  mapM (getcell sr) coords = Ok cells ->
+  selected_data ar args = (d <- numerics_keep cells ;; Ok (inr d)).
+Proof. intros Hw Hh Hc. unfold selected_data. rewrite Hw. cbn [bind]. rewrite Hh. cbn [bind]. rewrite Hc. reflexivity. Qed.
+
+(* numeric cells: int or float (no logical, no text, no error value) *)
+Definition numcell (v : pyval) : Prop := match v with VInt _ | VFloat _ => True | _ => False end.
+
+Lemma numerics_numeric cells : Forall numcell cells -> numerics_keep cells = Ok (VTuple cells).
+Proof.
+  intros H. unfold numerics_keep.
+  assert (H1 : forallb is_scalar cells = true).
+  { induction H as [|v l Hv _ IH]; [reflexivity|]. cbn. rewrite IH. destruct v; try contradiction; reflexivity. }
+  assert (H2 : first_error cells = Ok None).
+  { clear H1. induction H as [|v l Hv _ IH]; [reflexivity|]. cbn [first_error].
+    destruct v; try contradiction; cbn; exact IH. }
+  assert (H3 : filter is_numeric cells = cells).
+  { clear H1 H2. apply filter_all. intros v Hv. rewrite Forall_forall in H. specialize (H v Hv).
+    destruct v; try contradiction; reflexivity. }
+  rewrite H1, H2, H3. reflexivity.
+Qed.
+
+(* SUMIFS / MAXIFS / MINIFS / AVERAGEIFS over numeric selected cells: the
+   aggregate of exactly the cells at the selected positions *)
+Theorem sumifs_spec ar args sr coords cells :
+  wrap ar = Ok sr -> handle_ifs args (Some sr) = Ok (inr coords) ->
+  mapM (getcell sr) coords = Ok cells -> Forall numcell cells ->
+  sumifs ar args = py_sum_list cells (VInt 0).
+Proof.
+  intros Hw Hh Hc Hn. unfold sumifs. rewrite (selected_data_spec ar args sr coords cells Hw Hh Hc).
+  rewrite (numerics_numeric cells Hn). reflexivity.
+Qed.
+Theorem maxifs_spec ar args sr coords cells :
+  wrap ar = Ok sr -> handle_ifs args (Some sr) = Ok (inr coords) ->
+  mapM (getcell sr) coords = Ok cells -> Forall numcell cells ->
+  maxifs ar args = try_except (py_max_list cells) [ValueError] (Ok (VInt 0))
+  /\ minifs ar args = try_except (py_min_list cells) [ValueError] (Ok (VInt 0)).
+Proof.
+  intros Hw Hh Hc Hn. unfold maxifs, minifs. rewrite (selected_data_spec ar args sr coords cells Hw Hh Hc).
+  rewrite (numerics_numeric cells Hn). split; reflexivity.
+Qed.
+
+(* over numeric data AVERAGEIFS = SUMIFS / COUNTIFS *)
+Theorem average_is_sum_over_count ar args sr coords cells :
+  wrap ar = Ok sr -> handle_ifs args (Some sr) = Ok (inr coords) ->
+  mapM (getcell sr) coords = Ok cells -> Forall numcell cells -> cells <> [] ->
+  averageifs ar args = (s <- sumifs ar args ;; c <- countifs args ;; py_truediv s c).
+Proof.
+  intros Hw Hh Hc Hn Hne.
+  rewrite (sumifs_spec ar args sr coords cells Hw Hh Hc Hn).
+  rewrite (countifs_spec args coords (handle_ifs_none args sr coords Hh)).
+  unfold averageifs. rewrite (selected_data_spec ar args sr coords cells Hw Hh Hc).
+  rewrite (numerics_numeric cells Hn). cbn [bind py_len py_sum py_iter].
+  assert (Hz : zlen coords = zlen cells).
+  { unfold zlen. rewrite (mapM_length _ _ _ Hc). reflexivity. }
+  rewrite Hz. cbn [py_eq as_num].
+  replace (zlen cells =? 0) with false.
+  2:{ symmetry. apply Z.eqb_neq. unfold zlen. destruct cells; [congruence|]. cbn [length]. lia. }
+  reflexivity.
+Qed.
